@@ -255,7 +255,10 @@ SplitAtFin(tx, i) ==
   ELSE IF tx[i].t = "F" /\ tx[i].fin /\ ~IsCtlT(tx[i].op) THEN i
   ELSE SplitAtFin(tx, i + 1)
 
-WMStep(pre, type, n, m, e, tx) ==
+(* jfail: WriteJSON of a value that cannot be encoded.  The library opens a text message, the encoder writes   *)
+(* nothing, the message is closed (an empty text message goes out) and the encoder's error is returned: the    *)
+(* call fails although its (empty) message was sent; the buffer is released and the connection is not poisoned *)
+WMStepX(pre, type, n, m, e, tx, jfail) ==
   LET \* part 1: finish the open message, part 2: the new message
       needClose == pre.open /\ ~pre.dead
       k   == IF needClose /\ ~IsCtlT(pre.mtype) THEN SplitAtFin(tx, 1)
@@ -292,7 +295,10 @@ WMStep(pre, type, n, m, e, tx) ==
                    s3 == a2.st
                IN IF IsBad(s3) THEN Bad
                   ELSE IF a2.faulted THEN (IF ~IsNil(e) /\ s3.held = -1 THEN [s3 EXCEPT !.open = FALSE] ELSE Bad)
-                  ELSE IF IsNil(e) /\ ~s3.open /\ s3.held = -1 THEN s3 ELSE Bad
+                  ELSE IF (IF jfail THEN ~IsNil(e) ELSE IsNil(e)) /\ ~s3.open /\ s3.held = -1 THEN s3 ELSE Bad
+
+WMStep(pre, type, n, m, e, tx) == WMStepX(pre, type, n, m, e, tx, FALSE)
+WJBStep(pre, m, e, tx) == WMStepX(pre, OpText, 0, m, e, tx, TRUE)
 
 (***************************************************************************)
 (* WriteControl(type, n, dl) with message id m.                            *)
